@@ -427,6 +427,14 @@ def forEnum (xs : PV) (init : List PV × List PV) (body : PV → PV → List PV 
   | err e => ([err e], [err e])
   | _ => ([err "TypeError"], [err "TypeError"])
 
+/-- `np.arange(a, b)` -/
+def arange (a b : PV) : PV :=
+  match a, b with
+  | err e, _ => err e
+  | _, err e => err e
+  | int a, int b => if 0 ≤ a then arr .big (List.range' a.toNat (b - a).toNat) else err "negative-arange"
+  | _, _ => err "TypeError"
+
 /-- `list(x)` of a list of ints -/
 def toList : PV → PV
   | arr _ xs => arr .big xs
